@@ -743,7 +743,11 @@ def g_formula1(rng):
       lines.append("$A = 1" if rng.random() < 0.5 else "rec = 2")
     f = "\n".join(lines)
   if rng.random() < 0.15:
-    f = "\n".join("    " + l for l in f.split("\n"))       # common leading whitespace
+    ls = ["    " + l for l in f.split("\n")]                   # common leading whitespace
+    if len(ls) > 1 and rng.random() < 0.5:
+      # ... with a whitespace-only line (what an editor's auto-indent leaves behind) somewhere before the last line
+      ls.insert(rng.randint(1, len(ls) - 1), rng.choice(["  ", "    ", "      ", "\t", " "]))
+    f = "\n".join(ls)
   if rng.random() < 0.1:
     f = f + rng.choice(["\n", "  \n\n", "\n# end", " # $C"])
   if rng.random() < 0.05:
@@ -771,6 +775,10 @@ CURATED = [
   "'''\n    raise X\n'''", "x = 5\n'''\n  $A\n''' + str(x)", "[$A for rec in [1]]", "[v for v in [$A]]", "lambda rec: 1", "$A if $B else $C",
   "try:\n  1/0\nexcept ZeroDivisionError as rec:\n  pass\n1", "with open('x') as rec: pass\n1", "import x as rec\n1", "del rec\n1",
   "rec.A += 1\n1", "del rec.A\n1", "(rec := 1)", "def rec(): pass\n1",
+  # a shared leading indentation (pasted code) with WHITESPACE-ONLY lines, shorter / equal / longer than the indent,
+  # before later indented lines: the dedent patches must be computed on the text they are applied to
+  "  x = 1\n   \n  x + 1", "    a = 1\n  \n    b = 2\n    a + b", "    a = 1\n        \n    a", "\tx = 1\n\t \n\tx",
+  "  if 1:\n    y = 2\n \n    z = 3\n  y", "    $A\n    \n", "  x = $A\n\t\n  \n  return x", "   \n   1", "  1\n  \n",
 ]
 # inputs of the known findings (each class): replayed on the real code in every run
 FINDING_INPUTS = [
